@@ -102,7 +102,11 @@ def _judge_calls(test_id, calls):
             _w({"t": "stat", "k": "w2.validate", "n": 1})
             probs = irutil.validate(new_ir)
             if probs and not irutil.validate(old_ir):
-                sig = {"prop": "C04", "monitor": "validate", "kind": probs[0]["kind"], "op": c.op, "workload": "W2", "features": ir_features(old_ir), "diag": diagnose(c.op, old_ir, new_ir, c)}
+                from .diagnosers import binder_kind
+
+                dg = dict(diagnose(c.op, old_ir, new_ir, c) or {})
+                dg["oos_binder"] = binder_kind(old_ir, probs[0].get("sym"))
+                sig = {"prop": "C04", "monitor": "validate", "kind": probs[0]["kind"], "op": c.op, "workload": "W2", "features": ir_features(old_ir), "diag": dg}
                 _w({"t": "viol", "sig": sig, "case": dict(case, problems=probs)})
                 continue
         if time.time() > budget_t:
